@@ -19,7 +19,7 @@ TOKEN = re.compile(
   | (?P<block>/\*.*?\*/)
   | (?P<str>"(?:[^"\\]|\\.)*")
   | (?P<life>'[A-Za-z_][A-Za-z0-9_]*)
-  | (?P<ident>[A-Za-z_][A-Za-z0-9_]*)
+  | (?P<ident>[^\W\d]\w*)
   | (?P<num>-?[0-9][0-9_]*)
   | (?P<punct>::|=>|->|[#\[\](){}<>,;:=&!?*+\-.|'$/@^%~])
 """,
